@@ -509,8 +509,15 @@ class World:
                 # entrance pupil): the clause has nothing to say
                 self.probe('solve_marginal_undefined')
                 continue
-            tol = 1e-9 * (1 + abs(h) + max(abs(v) for v in ya
-                                           if math.isfinite(v)))
+            if abs(ua[k - 1]) < 1e-4:
+                # edits since the solve was added left the ray (almost)
+                # parallel to the axis in front of the surface: no finite
+                # move can satisfy the solve; the history has left the domain
+                self.probe('abort_solve_slope_vanished')
+                raise Abort('solve on a ray with vanishing slope')
+            # round-off of y_k = y_(k-1) + u_(k-1) * gap
+            tol = 1e-9 * (1 + abs(h) + max(abs(v) for v in ya[:k + 1]) +
+                          max(abs(v) for v in ua[:k]) * (1 + m.zscale))
             if not feq(ya[k], h, tol):
                 where = 'image' if k == m.n - 1 else (
                     'mirror' if m.surfs[k]['reflective'] else 'interior')
